@@ -8,7 +8,10 @@ U = ["mptplot/layout/line_property.c", "mptplot/layout/lattr_set.c", "mptplot/la
 
 
 def queries(tier):
-    return [
+    col = Q("colour_text", "C20/color.c", units=["mptplot/layout/color_parse.c", "mptplot/layout/color_html.c", "mptplot/layout/color_set.c", "mptcore/convert/convert_int.c", "mptcore/types/type_traits.c", "mptcore/misc/identifier.c", "mptcore/array/array_traits.c", "mptcore/meta/meta_reference_traits.c", "mptcore/event/command_traits.c", "mptcore/array/array_clone.c"],
+            harness_defines={"TL": 5 if tier == "quick" else 8}, unwind_default=12, stubs=["libc.c"], flags=["--max-field-sensitivity-array-size", "100"],
+            bounds="colour text of <= %d characters over {#,0,8,f,a,g,space,NUL}" % (5 if tier == "quick" else 8), outside="colour names beyond the alphabet; printing")
+    return [col,
         Q("line_scalar_props", "C20/line.c", units=U, unwind_default=16, fp=[(r"convert", ["h_conv"])],
           unwind={"harness": 30, "strcmp": 8, "strcasecmp": 8, "strncasecmp": 8, "strlen": 8, "memcmp": 30, "mpt_line_get": 12, "mpt_property_match": 12},
           flags=["--max-field-sensitivity-array-size", "100"], stubs=["libc.c"],
